@@ -186,6 +186,44 @@ func runC19(c *Ctx) {
 			c.R.Check("A-bounds", "Iterator."+m.fn+"|seek flags agree with the range test", ok, c.posOf(site), fmt.Sprintf("limitIterator treats %s as inclusive=%v; %s seeks it with exactMatch=%v, greater=%v", m.bound, *inc, m.fn, site.Call.Args[2], site.Call.Args[3]))
 		}
 	}
+	// R-reseek: a forced re-seek is consumed by the step that honours it
+	c.R.Rule("R-reseek", "Iterator.Next and Iterator.Prev, when a forced re-seek is pending (seekKey != nil), clear seekKey before they re-seek: the re-seek happens once, later steps advance from the node found")
+	for _, name := range []string{"Next", "Prev"} {
+		f := c.fn(treapPkg, "Iterator", name)
+		if f == nil {
+			continue
+		}
+		isSeekKey := func(v ssa.Value) bool { return ssau.IsFieldOf(v, "Iterator", "seekKey") }
+		var clears []ssa.Instruction
+		for _, b := range f.Blocks {
+			for _, in := range b.Instrs {
+				if st, ok := in.(*ssa.Store); ok && isSeekKey(st.Addr) && ssau.IsNilConst(st.Val) {
+					clears = append(clears, st)
+				}
+			}
+		}
+		cut := ssau.NewCut()
+		for _, in := range clears {
+			cut.AddInstr(in)
+		}
+		// the seek calls that take the pending key (an argument loaded from seekKey)
+		n, bad := 0, ""
+		r := ssau.ReachFromEntry(f, cut)
+		for _, call := range ssau.CallsIn(f, callPred(R{treapPkg, "Iterator", "seek"})) {
+			a := call.Common().Args
+			if len(a) < 2 || !ssau.DependsOn(a[1], func(x ssa.Value) bool {
+				u, ok := x.(*ssa.UnOp)
+				return ok && u.Op == token.MUL && isSeekKey(u.X)
+			}) {
+				continue
+			}
+			n++
+			if r.Instr(call) {
+				bad = c.posOf(call)
+			}
+		}
+		c.R.Check("R-reseek", "Iterator."+name+"|pending re-seek cleared before seeking", n > 0 && bad == "", c.pos(f.Pos()), fmt.Sprintf("%d re-seek call(s) on the pending key; reachable without seekKey = nil first: %q", n, bad))
+	}
 	nStores := 0
 	for _, f := range c.pkgFuncs(treapPkg) {
 		root := f
